@@ -422,6 +422,11 @@ def same_source_other_globals(src, arrays):
         except Exception:  # noqa: BLE001
             return []
         if status == "differ":
+            # first the recorded constructs: with another constant the program may simply take the branch in
+            # which a known construct (e.g. in-place update of an aliased argument) changes the result
+            cause = root_cause(src2, "prog", arrays, None, {"VF_G": g})
+            if cause != "other":
+                return [core.Failure(f"construct:{cause}", f"generated program (module constant VF_G = {g}): array form differs silently: {detail}\n{src2}")]
             return [core.Failure("same-source-other-globals", f"two functions with identical source text and different module constants "
                                  f"(VF_G = {tr.done} / {tr.done + 1.5}): the array form of the one with VF_G = {g} differs silently from its own "
                                  f"scalar original: {detail}\n{src2}")]
